@@ -61,12 +61,6 @@ theorem step_ne (s : Machine.State) (h : s.frames ≠ []) :
   have := step_ne' s h
   cases hr : step s <;> simp_all [resState]
 
-theorem repairIfMatch_ne (pre post : Machine.State) (e : Err) (h : post.frames ≠ []) :
-    (repairIfMatch pre post e).frames ≠ [] := by
-  unfold repairIfMatch
-  repeat' split
-  all_goals simp_all
-
 theorem mstep_ne' (cfg : Cfg) (s : Machine.State) (h : s.frames ≠ []) :
     ∀ s', resState (mstep cfg s) = some s' → s'.frames ≠ [] := by
   intro s' hs
@@ -75,12 +69,7 @@ theorem mstep_ne' (cfg : Cfg) (s : Machine.State) (h : s.frames ≠ []) :
   cases hr : step s with
   | cont a => rw [hr] at hs h0; simp [resState] at hs h0; subst hs; exact h0
   | done a v => rw [hr] at hs h0; simp [resState] at hs h0; subst hs; exact h0
-  | error a e =>
-    rw [hr] at hs h0; simp [resState] at hs h0
-    subst hs
-    split
-    · exact repairIfMatch_ne _ _ _ h0
-    · exact h0
+  | error a e => rw [hr] at hs h0; simp [resState] at hs h0; subst hs; exact h0
   | panic site => rw [hr] at hs; simp only at hs; split at hs <;> simp [resState] at hs
   | unsupported w => rw [hr] at hs; simp [resState] at hs
 
